@@ -410,12 +410,13 @@ PROPS = {
                        "(unpatched lock placement loses a live key) / C05_index_lookup_stable (patched placement, all schedules). "
                        "Tie to the code: threaded stress on the real Db with background workers (floor / ceiling / monotone / atomic "
                        "visibility / never-absent oracle, index growth, tier moves), hand-over windows held open with the yield hook, "
-                       "deterministic F11 reproduction."),
+                       "deterministic F11 reproduction."
+                       " Slot level (Props/C05Slot.lean, model Pdb/Model/ConcSlot.lean: index chunk -> address -> value slot with stored key, per-tier free list, log overlay over chunks and slots, one location per enactWrite, seven-step reader): C05_slot_read_linearizable / C05_slot_never_absent / C05_slot_snapshot_order under the discipline 'commit_overlay.read() held across overlay lookup + column.get' (T0 obligation added by f-t0), C05_slot_key_check and C05_slot_shadow / C05_slot_view_represents in both disciplines, and by `decide`: C05_slot_early_release_counterexample (guard dropped after the overlay miss: T2 moves the key, T3 reuses the slot, the reader reports a key absent that is present throughout), C05_slot_no_key_check_counterexample, C05_slot_end_read_exact (seeded C05-c05a at model level). The key-level LTS is executed against the code: the deterministic harness scenarios (f11, handover, deepqueue) are replayed action by action through driver command c05 and every get / get_size answer is compared (Proofs/C05Driver.lean: a replayed trace IS a schedule of the LTS, replay_reads_linearizable)."),
         "level_note": ("Partial by nature: the theorems are about the lock-granular LTS; mmap stores / relaxed atomics inside the "
                        "critical sections are not modelled; schedules of the real crate are sampled. Stated for plain columns "
                        "(rc / preimage columns weaken as in C07). Trusted: Lean kernel, hook fixes/hook-c05.diff, harness oracles."),
-        "lean": ["Pdb.Props.C05", "Pdb.Proofs.Order"],
-        "harness": [{"cmd": "c05", "quick": 12, "thorough": 36, "model": False, "timeout": 3000}],
+        "lean": ["Pdb.Props.C05", "Pdb.Props.C05Slot", "Pdb.Proofs.C05Driver", "Pdb.Proofs.Order"],
+        "harness": [{"cmd": "c05", "quick": 12, "thorough": 36, "timeout": 3000}],
         "rule": ("cases from one SplitMix64 state, kind = seed % 6 (a run covers the kinds in turn): 0|1 threaded stress (4..8 keys bumped together per transaction, "
                  "value sizes from 16 B to 40 kB incl. multipart so entries change tier, filler thread growing one index chunk: 2..5 "
                  "index growths per case, 4..6 readers, seeded delays at the yield points), 2 deterministic F11 (reader parked between "
@@ -423,7 +424,8 @@ PROPS = {
                  "before end_read, reads + commits + further steps in between), 4|5 deep queue with diverged ids (commit ids and log "
                  "record ids made to differ by 1..3 through reindex records or a replay at open, then 3..12 queued transactions on the "
                  "same keys stepped one pipeline call at a time with get + get_size of every key after every call); non-trivial = >1000 "
-                 "reads and >10 versions (stress), reader parked (F11), always (hand-over, deep queue)"),
+                 "reads and >10 versions (stress), reader parked (F11), always (hand-over, deep queue)"
+                 "; kinds 2..5 emit one op line per real API call (commit | process = pop; publish; cleanOverlay | flush | enactRecord per key-level record of the enacted file | parked thread: pop, publish ... cleanOverlay resp. enactWrites ... endRead | parked reader: rBegin, rOverlay, rLog ... rTable, rEnd) and per read; ~1000-1400 reads compared per 12 cases"),
         "assumptions": ["identity hashing (zero salt, uniform keys, instrumentation) so that one index chunk can be filled on purpose",
                         "lock-granular atomicity of the critical sections (parking_lot lock semantics)"],
         "trusted": ["hook lib.rs verif::{set_yield_hook, yield_point} + 4 call sites (cfg pdb_verif)"],
@@ -531,16 +533,31 @@ PROPS = {
         "trusted": ["hook btree::verif::{verif_dump, separator_codec, node_codec, NodeDump::encoded} / verif::btree_dump (cfg pdb_verif, read-only)"],
     },
     "C15": {
-        "level_text": ("Lean theorems C15_no_lost_wakeup (all configurations), C15_commit_returns / C15_commit_wakeups, "
-                       "C15_no_stuck and C15_shutdown_terminates (+ C15_shutdown_signalled, C15_kill_logs_total) over an "
-                       "interleaving model of N committers, the four workers and the dropping thread (program counters at "
-                       "lock / wait / signal / check granularity, WaitCondvar flag protocol, lost notifications modelled, all "
-                       "transaction sizes, injected worker failures, drop at any moment): in every reachable state in which "
-                       "no thread can move nothing is pending, a throttled committer is woken by the downward crossing or by "
-                       "a stored error, and after shutdown every worker step decreases a measure. Proved for the FIXED "
-                       "configuration (fixes/fix-c15-*.diff); for the unpatched programs three machine-checked schedules "
-                       "(F7 with and without workers, F12, F13) refute the statement and are replayed on the real crate by "
-                       "the harness. The configuration flags and the order obligations are regenerated from src/db.rs."),
+        "level_text": ("Lean theorems over an interleaving model of N committers, the four workers and the dropping thread (program counters at "
+                       "lock / wait / signal / check granularity, WaitCondvar flag protocol, lost notifications modelled, all transaction sizes,"
+                       " injected worker failures at every `?` of the worker loops, drop at any moment; environment actions: commit deferral whi"
+                       "le a client holds a tree lock and the deferral cycle, the iteration lock held by a client callback, index growth / reind"
+                       "ex gating by record id, worker panics (ReachableP only)): C15_no_lost_wakeup (all configurations, panics included), C15_"
+                       "commit_returns / C15_commit_wakeups, C15_quiescent / C15_no_stuck (no thread can move, no client-held lock blocks one, n"
+                       "o deferral cycle queued => nothing pending; after drop: C15_drop_persists_all: queue and appending file empty, no log fi"
+                       "le half read when Log::kill_logs deletes the reading file, accepted + reindex batches = records = enacted + records in c"
+                       "omplete flushed files), C15_progress / C15_client_free_runs_are_finite / C15_drains / C15_quiescent_accounting (a potent"
+                       "ial that every step of every thread strictly decreases, running or shutting down: without client activity quiescence is "
+                       "reached within phi steps under ANY scheduler, and there every accepted commit is logged, every rotated log file enacted,"
+                       " no commit call parked), C15_shutdown_terminates (+ C15_shutdown_signalled, C15_kill_logs_total), C15_iteration_lock_exc"
+                       "lusive, C15_reindex_needs_only_a_wakeup. Proved for the FIXED configuration (the fixes e2435c7 / 100a265 / 560b45b are i"
+                       "n the tree: C15_gen_fixed). Machine-checked refutations: unpatched programs F7 (with and without workers), F12, F13: F7 "
+                       "and F13 are replayed on the real crate by the harness (scenarios logs-nothread / keeplogs, errfull); F12's window (a few"
+                       " instructions between the throttle test and the wait) cannot be forced on the real crate: scenario logqfull brings log_q"
+                       "ueue_wait.work above 128 MiB with the log worker parked in the throttle and drops the handle there, which exercises the "
+                       "repaired notify path, not the lost-wake-up window. NEW FINDING F27 (= C11 F4c) (C15_defer_cycle_livelock / C15_defer_cyc"
+                       "le_kill_blocks, harness scenario defercycle, deterministic): two queued commits that each dereference a tree the other o"
+                       "ne recorded in used_trees are re-queued for ever with no lock held. Behaviours outside the guarantee, shown by schedules"
+                       " and observed on the real crate: the log worker busy-spins while a client holds a tree lock (C15_defer_busy_spin), a par"
+                       "ked iteration callback stalls the commit worker (C15_iter_held_stalls), a pending reindex needs a further commit to star"
+                       "t (C15_reindex_stalls, C15_reindex_lost_trigger; commits are unaffected), drop leaves flushed unread log files for repla"
+                       "y (C15_drop_leaves_flushed_files), a worker panic skips store_err (C15_panic_witness). The configuration flags and the o"
+                       "rder obligations (incl. C15_gen_new_shapes) are regenerated from src/db.rs."),
         "level_note": ("Trusted: Lean kernel; tools/skeleton.py (syntactic call-order extraction); the hand-written LTS "
                        "(granularity: a step under one mutex whose effects are only visible under that mutex is atomic; "
                        "kill_logs and the stepping API are sequential functions); OS scheduler fairness and parking_lot "
@@ -559,8 +576,9 @@ PROPS = {
                  "the 16 MiB limit), bgerr / errfull (directory renamed "
                  "under the running handle: a worker fails; commits must return Ok or Err(Background)); always_flush, "
                  "sync_wal, sync_data random; oracle: every call returns, drop returns, every Ok-committed key has its last "
-                 "Ok-committed value after reopen (BTreeMap); non-trivial = at least one commit accepted"),
-        "assumptions": ["A-os: weak fairness of the OS scheduler for runnable threads; parking_lot Mutex / Condvar semantics as modelled "
+                 "Ok-committed value after reopen (BTreeMap); non-trivial = at least one commit accepted"
+                 "; logqfull (commit worker stalled by a parked iter_column_while, 17 MiB commits until > 128 MiB are logged and unenacted and the log worker is parked in the log-queue-full throttle; A: a commit call blocks >= 300 ms, release, all calls return, quiet: everything enacted; B: release and drop at once); growth (identity hashing, one index chunk overflows, quiet without drop: all logs reclaimed; whether the old index file is gone is recorded (growth.reindex_stalled / _done_without_client), on a stall ONE tiny commit must complete the reindex); quiesce also with sync_data=false (all records enacted, exactly <= KEEP_LOGS = 16 non-empty log files remain); defercycle (multitree: X = [DereferenceTree T, InsertTree A], Y = [DereferenceTree T, InsertTree B] committed under a locked reader, readers released and dropped, quiet: reports known finding F27; control variant must drain); forced case indices: i%10 = 1 logqfull, 3 quiesce, 5 defercycle, 6 growth, 8 exact"),
+        "assumptions": ["A-client: a client does not hold a tree reader lock / stay inside an iteration callback for ever (clientLetsGo)", "A-os: weak fairness of the OS scheduler for runnable threads; parking_lot Mutex / Condvar semantics as modelled "
                         "(notify with no waiter is lost, no reliance on spurious wake-ups)",
                         "A-rust: a handle is not dropped while a commit call on it is in progress (ownership)"],
         "trusted": ["tools/skeleton.py (Pdb/Gen/Order.lean)"],
